@@ -19,7 +19,7 @@ class C10(Prop):
     case_imports = ["Moc.Json", "Moc.CodecMsg", "Moc.Codec"]
     harness_bin = "core"
     harness_sub = "c10"
-    sizes = {"quick": 6000, "thorough": 150000}
+    sizes = {"quick": 9000, "thorough": 150000}
     max_reports = 3
     gen_names = ("g_cevent_", "g_creq_", "g_cclose_", "g_cauth_", "g_ccount_", "g_seose_", "g_sevent_", "g_snotice_",
                  "g_sok_", "g_sauth_", "g_scount_", "g_sclosed_", "g_event_nfields_bad", "g_fkey_", "g_MsgLabel",
